@@ -9,6 +9,10 @@ prints pre/post genomes; the compiled Lean driver decides `WF post` and the oper
 relation for every observed call; an independent C++ oracle (well-formedness + provenance, written
 from the property text, not is_valid) judges the same call; every result is executed under
 ASan/UBSan.  Disagreements are examined (search: replay in the assertion-enabled build).
+The environment of the problem (code_length, patch_length, team size) is edited during the histories:
+operators receive individuals / teams built under an earlier environment (shorter or longer than the
+current code_length, possibly no longer than the current patch_length), individuals of different sizes
+coexist; the request of `mutation` / `tmutation` carries the environment it was given.
 """
 import concurrent.futures as cf
 import glob
@@ -267,6 +271,19 @@ def run(chk, replay=None):
                     chk.count("mutation:pgm=%d%%" % info["pgm%"])
             if "team" in info:
                 chk.count("team:%d" % info["team"])
+            # the operand against the environment the operator was given
+            if "szenv" in info:
+                rel = ("<", "=", ">")
+                chk.count("%s:size%scode_length-of-the-environment" % (op, rel[info["szenv"]]))
+                chk.count("%s:size%spatch_length-of-the-environment" % (op, rel[info["szpl"]]))
+                if info["szenv"] != 1:
+                    chk.count("calls-under-an-environment-that-does-not-fit-the-operand")
+            if info.get("drift"):
+                chk.count("environment-edited-before-this-call")
+            if info.get("mixed"):
+                chk.count("tmutation:members-of-different-sizes")
+            if op == "tmutation" and "envteam" in info and info["envteam"] != info.get("team"):
+                chk.count("tmutation:team-size-differs-from-env.team.individuals")
             # REAL argument counts of the genes of the result, overwrites across the inline/heap boundary
             for k, v in info.items():
                 if k.startswith("ar") and k[2:].isdigit():
@@ -289,6 +306,8 @@ def run(chk, replay=None):
                 continue
             tags = {"op": op, "set": info.get("set"), "rows": rows, "why": o["why"],
                     "flavour": FLAVOURS.get(info.get("flavour")), "lean": ans}
+            if "envlen" in info:
+                tags.update({"env_code_length": info["envlen"], "env_patch_length": info.get("pl")})
             rep = {"request_line": lline, "oracle": o, "lean": ans, "seed": set_seed, "args": args,
                    "stdin": jstdin, "scenario": o["scenario"], "op_index": o["opn"]}
             if o["expect"] == "bad":
